@@ -137,7 +137,8 @@ def parse_lp_packet_v2(wire: BinaryStr, with_tl: bool = True) -> LpPacketValue:
     markers = {}
     ret = LpPacketValue.parse(wire, markers, ignore_critical=True)
 
-    if ret.frag_index is not None or ret.frag_count is not None:
+    # FragIndex 0 and FragCount 1 are what a packet that is not fragmented has anyway; spelled out they change nothing
+    if (ret.frag_index or 0) != 0 or (ret.frag_count if ret.frag_count is not None else 1) != 1:
         raise DecodeError('NDNLP fragmentation is not implemented yet.')
 
     return ret
